@@ -177,10 +177,15 @@ def handle (line : String) : String :=
       -- close whatever is still open at the end
       let opens := s.foldl (fun (d : Int) e => match e with | .openBlock => d + 1 | .closeBlock => d - 1 | _ => d) 0
       let s := s ++ List.replicate opens.toNat .closeBlock
-      if !(Spec.wellFormed s (Spec.after (p ++ [.openBlock]) [[]]) 0) || !depthOK s then none else
+      -- parameters of the enclosing function definition (rotating): named ones hide, unnamed ones do not
+      let plists : List (List (Option String)) := [[], [some "T"], [none, some "T"], [some "T", none], [some "U", some "T"],
+        [none, none, some "U"], [some "U"]]
+      let params := plists[(i / 4) % plists.length]!
+      let pobjs : List Spec.ScEv := params.filterMap fun q => q.map Spec.ScEv.object
+      if !(Spec.wellFormed s (Spec.after (p ++ [.openBlock] ++ pobjs) [[]]) 0) || !depthOK s then none else
       let withProbes := s.foldl (fun (acc : List Spec.ScEv × Nat) e =>
         (acc.1 ++ [e, .probe "T" (acc.2 % 4), .probe "U" ((acc.2 + 1) % 4)], acc.2 + 1)) ([.probe "T" (i % 4), .probe "U" ((i + 2) % 4)], i)
-      some (Spec.histCase p withProbes.1)
+      some (Spec.histCaseP p params withProbes.1)
     toString all.size ++ "\t" ++ "\t".intercalate (cases.map fun (t, d) => rec [t, d])
   | ["genast", dump] =>
     match readDump dump with
